@@ -10,6 +10,11 @@
 //	    ApplyClusterChanges (real ensemble selector as supplier) + real StatusResource; the projection is
 //	    compared after every step; every observed status / assignment / client table / routing decision is
 //	    written as a trace line for TLC (ShardMapTrace).
+//	shardmap client -in sequences.ndjson -out trace.ndjson -res result.json
+//	    every input line is a sequence of publications for one namespace (ShardMapClientMC "SEQ" lines or random
+//	    ones): the namespace is removed, its shards deleted and it is re-created with the next shard count on the
+//	    real ApplyClusterChanges/StatusResource while ONE client shard manager stays connected and applies the
+//	    publications it receives (updates in the given order); table and routing are recorded after each.
 //	shardmap coord -in behaviours.ndjson -out trace.ndjson -res result.json
 //	    the config-change steps of the behaviours drive a real Coordinator (memory metadata provider, fake
 //	    RPC provider); every ShardAssignments message pushed to the (fake) storage nodes and the cluster
@@ -176,6 +181,27 @@ func assignRecs(a *proto.ShardAssignments) []nsRec {
 		res = append(res, r)
 	}
 	return res
+}
+
+// reorder the assignments of one namespace: the coordinator builds the list from a Go map, any order can occur
+func reorder(a *proto.ShardAssignments, ns string, order string, rng *rand.Rand) {
+	nsa := a.Namespaces[ns]
+	if nsa == nil {
+		return
+	}
+	l := nsa.Assignments
+	sort.Slice(l, func(i, j int) bool { return l[i].Shard < l[j].Shard })
+	switch order {
+	case "desc":
+		for i, j := 0, len(l)-1; i < j; i, j = i+1, j-1 {
+			l[i], l[j] = l[j], l[i]
+		}
+	case "mid":
+		k := len(l) / 2
+		nsa.Assignments = append(append([]*proto.ShardAssignment{}, l[k:]...), l[:k]...)
+	case "shuffle":
+		rng.Shuffle(len(l), func(i, j int) { l[i], l[j] = l[j], l[i] })
+	}
 }
 
 // what coordinator.computeNewAssignments publishes for a status (used where no coordinator runs)
@@ -407,7 +433,7 @@ func expProjection(e expect) map[string]map[int64]bool {
 }
 
 type mismatch struct {
-	Behaviour []step `json:"behaviour"`
+	Behaviour any    `json:"behaviour"`
 	Step      int    `json:"step"`
 	What      string `json:"what"`
 	Mode      string `json:"mode"`
@@ -498,6 +524,87 @@ func replayDirect(w *writer, beh []step, rng *rand.Rand, clientNs string) *misma
 				return &mismatch{Behaviour: beh, Step: i, Mode: "direct",
 					What: fmt.Sprintf("client table after update: got shards %v, model demands %v", gotT, wantT)}
 			}
+		}
+	}
+	return nil
+}
+
+// ---------------------------------------------------------------------------------------------------------
+// client mode: one namespace is deleted and re-created with other shard counts while the client stays connected
+
+type pubStep struct {
+	Count int     `json:"count"`
+	Order string  `json:"order"`
+	Recv  bool    `json:"recv"`
+	Table []int64 `json:"table"`
+}
+
+func replayClient(w *writer, seq []pubStep, rng *rand.Rand) *mismatch {
+	const ns = "a"
+	w.emit(newLine("Reset"))
+	sr := resources.NewStatusResource(cmeta.NewMetadataProviderMemory())
+	cl := newClient(ns)
+	defer cl.router.Close()
+	apply := func(specs []nsSpec) string {
+		cc := clusterConfig(1, specs)
+		cur, version := sr.LoadWithVersion()
+		what := guarded(func() {
+			next, _, _ := utils.ApplyClusterChanges(&cc, cur, supplier(&cc))
+			if !sr.Swap(next, version) {
+				panic("status swap refused")
+			}
+		})
+		l := statusLine("Config", sr.Load())
+		l.Servers, l.Cfg, l.Conf = 1, specs, len(specs) == 0 || specs[0].Count <= 64
+		if what != "" {
+			l.Res = what
+		}
+		w.emit(l)
+		return what
+	}
+	for i, p := range seq {
+		if _, exists := sr.Load().Namespaces[ns]; exists {
+			if what := apply([]nsSpec{}); what != "" {
+				return &mismatch{Behaviour: seq, Step: i, What: what, Mode: "client"}
+			}
+			ids := []int64{}
+			for id := range sr.Load().Namespaces[ns].Shards {
+				ids = append(ids, id)
+			}
+			sort.Slice(ids, func(a, b int) bool { return ids[a] < ids[b] })
+			for k, id := range ids {
+				sr.DeleteShardMetadata(ns, id)
+				if len(ids) > 16 && k >= 2 && k < len(ids)-1 {
+					continue // big namespaces: record the first two and the last deletion only
+				}
+				l := statusLine("Deleted", sr.Load())
+				l.Name, l.Id, l.Conf = ns, id, len(ids) <= 16
+				w.emit(l)
+			}
+		}
+		if what := apply([]nsSpec{{Name: ns, Count: p.Count, Rf: 1}}); what != "" {
+			return &mismatch{Behaviour: seq, Step: i, What: what, Mode: "client"}
+		}
+		if !p.Recv {
+			continue
+		}
+		pub := publish(sr.Load())
+		reorder(pub, ns, p.Order, rng)
+		al := newLine("Assign")
+		al.Ns = assignRecs(pub)
+		w.emit(al)
+		cl.recv(w, pub)
+		cl.routeMany(w, rng, 4, true)
+		got := []int64{}
+		for _, t := range cl.router.Table() {
+			got = append(got, t[0])
+		}
+		sort.Slice(got, func(a, b int) bool { return got[a] < got[b] })
+		want := append([]int64{}, p.Table...)
+		sort.Slice(want, func(a, b int) bool { return want[a] < want[b] })
+		if !reflect.DeepEqual(got, want) {
+			return &mismatch{Behaviour: seq, Step: i, Mode: "client",
+				What: fmt.Sprintf("client table after publication %d (%d shards): got shards %v, model demands %v", i+1, p.Count, got, want)}
 		}
 	}
 	return nil
@@ -810,7 +917,7 @@ func main() {
 		slog.SetDefault(slog.New(slog.NewTextHandler(os.Stderr, nil)))
 	}
 	if len(os.Args) < 2 {
-		fmt.Fprintln(os.Stderr, "usage: shardmap gen|replay|coord ...")
+		fmt.Fprintln(os.Stderr, "usage: shardmap gen|replay|client|coord ...")
 		os.Exit(2)
 	}
 	fs := flag.NewFlagSet(os.Args[1], flag.ExitOnError)
@@ -838,6 +945,29 @@ func main() {
 	switch os.Args[1] {
 	case "gen":
 		doGen(w, rng)
+	case "client":
+		f, err := os.Open(*in)
+		if err != nil {
+			fmt.Fprintln(os.Stderr, err)
+			os.Exit(2)
+		}
+		sc := bufio.NewScanner(f)
+		sc.Buffer(make([]byte, 1<<20), 1<<26)
+		for sc.Scan() {
+			var seq []pubStep
+			if err := json.Unmarshal(sc.Bytes(), &seq); err != nil {
+				fmt.Fprintln(os.Stderr, "bad publication sequence:", err)
+				os.Exit(2)
+			}
+			if *limit > 0 && result.Behaviours >= *limit {
+				break
+			}
+			result.Behaviours++
+			result.Steps += len(seq)
+			if mm := replayClient(w, seq, rng); mm != nil && len(result.Mismatches) < 25 {
+				result.Mismatches = append(result.Mismatches, *mm)
+			}
+		}
 	case "replay", "coord":
 		f, err := os.Open(*in)
 		if err != nil {
